@@ -25,6 +25,7 @@ import (
 func init() {
 	streams["frozen"] = &stream{gen: genFrozen, run: runSweep}
 	streams["inert"] = &stream{gen: genInert, run: runSweep}
+	streams["initonly"] = &stream{gen: genInitOnly, run: runSweep}
 	streams["queries"] = &stream{gen: genQueries, run: runSweep}
 	streams["nestedro"] = &stream{gen: genNestedRO, run: runSweep}
 	streams["methods"] = &stream{gen: func(*rand.Rand, string, string) string { return "list" }, run: func(string) string { return methodList() }}
@@ -72,7 +73,7 @@ func init() {
 // ---------------------------------------------------------------------------
 // argument generation by parameter type
 
-var anyPool = []string{"N", "i7", "i1", "i2", "s78", "b1", "K n k=4 [ i1 ]", "K a k=1 [ ]", "C n - 6b c1 i2", "Z n", "Y n", "o20:1", "o20:5", "o21:1", "o1:1", "s-", "A [ s414e44 i1 ]"}
+var anyPool = []string{"C n - - c1 N", "C n - - - N", "C a - - c2 i1", "N", "i7", "i1", "i2", "s78", "b1", "K n k=4 [ i1 ]", "K a k=1 [ ]", "C n - 6b c1 i2", "Z n", "Y n", "o20:1", "o20:5", "o21:1", "o1:1", "s-", "A [ s414e44 i1 ]"}
 
 func genArgs(r *rand.Rand, m reflect.Method, name string) ([]string, bool) {
 	var args []string
@@ -441,6 +442,13 @@ func runSweep(payload string) string {
 				alive = "1"
 			}
 			outs = append(outs, fmt.Sprintf("%s %s Z%s", name, res, alive))
+		case "initonly":
+			// an Init()-only Condition is initialised: what is asked of it is to return normally, whatever the argument
+			tok := name + " ok"
+			if res == "PANIC" {
+				tok = name + " PANIC"
+			}
+			outs = append(outs, tok)
 		case "queries":
 			res2, _ := invoke(r, call)
 			after2 := deepDump(r.val())
@@ -599,6 +607,21 @@ func genInert(r *rand.Rand, id string, tier string) string {
 		calls = append(calls, "IsInit")
 	}
 	return "inert | " + recv + " | " + strings.Join(calls, " ; ")
+}
+
+// initonly (C17): every exported method on an Init()-only Condition, with arguments that include other incomplete
+// Conditions (an operator but no keyword, nothing at all, ...): it must return normally
+func genInitOnly(r *rand.Rand, id string, tier string) string {
+	names := methodNames("cond")
+	var calls []string
+	for i, n := 0, 1+r.Intn(4); i < n; i++ {
+		name := names[r.Intn(len(names))]
+		if r.Intn(3) == 0 {
+			name = []string{"IsEqual", "String", "Valid", "SetExpression", "SetKeyword", "SetOperator"}[r.Intn(6)]
+		}
+		calls = append(calls, genCall(r, "cond", name))
+	}
+	return "initonly | init-cond | " + strings.Join(calls, " ; ")
 }
 
 func genQueries(r *rand.Rand, id string, tier string) string {
